@@ -6,7 +6,7 @@ ID = "C15"
 COQ_IMPORTS = ["From HTA.model Require Import C15_Model."]
 SOURCES = {"hta/analyzers/cuda_kernel_analysis.py": ["cuda_kernel_launch_stats"]}
 N_CASES = {"quick": 300, "thorough": 4000}
-RULE = ("generated well-formed file sets (profiles default/fifo_tiny/fifo_steps, 1-3 ranks, missing kernels, orphan kernels, "
+RULE = ("generated well-formed file sets (profiles default/fifo_tiny/fifo_steps/free_overlap (the last one places device activities anywhere, also before their launch call), 1-3 ranks, missing kernels, orphan kernels, "
         "memcpy/memset launches, equal timestamps), flag include_memory_events drawn per case; non-trivial = the rank has at least one "
         "linked launch/kernel pair; distinct = hash of the file set and parameters")
 ASSUMPTIONS = ["wf_launch: a launch call's correlation id is carried by no other row on stream -1 (quantifier: a correlation id pairs at most one host call with one device activity)"]
@@ -14,7 +14,7 @@ ASSUMPTIONS = ["wf_launch: a launch call's correlation id is carried by no other
 
 def gen_cases(seed, tier, n):
     out = []
-    profs = ["default", "fifo_tiny", "fifo_steps"]
+    profs = ["default", "fifo_tiny", "fifo_steps", "free_overlap"]
     for i in range(n):
         p = tracegen.PROFILES[profs[i % len(profs)]]
         c = tracegen.gen_case(seed, i, p)
@@ -31,30 +31,39 @@ def run_impl(case, d):
     ranks = sorted(ta.t.get_ranks())
     frames = {r: fw.dump_frame(ta.t.get_trace(r), sym) for r in ranks}
     mem = case["params"]["mem"]
-    try:
-        res = ta.get_cuda_kernel_launch_stats(ranks=ranks, include_memory_events=mem, visualize=False)
-        out = {}
-        for r in ranks:
-            df = res[r]
-            out[r] = sorted([fw.as_int(a), fw.as_int(b_), fw.as_int(c_), fw.as_int(d_)] for a, b_, c_, d_ in
-                            zip(df["correlation"], df["cpu_duration"], df["gpu_duration"], df["launch_delay"]))
-    except Exception as e:
-        out = {"error": type(e).__name__ + ": " + str(e)[:200]}
-    return {"frames": frames, "out": out}
+    # two calls in sequence in one process (first with the drawn flag, then with the opposite one): a call must not
+    # depend on the calls made before it
+    outs = []
+    for flag in (mem, not mem):
+        try:
+            res = ta.get_cuda_kernel_launch_stats(ranks=ranks, include_memory_events=flag, visualize=False)
+            out = {}
+            for r in ranks:
+                df = res[r]
+                out[r] = sorted([fw.as_int(a), fw.as_int(b_), fw.as_int(c_), fw.as_int(d_)] for a, b_, c_, d_ in
+                                zip(df["correlation"], df["cpu_duration"], df["gpu_duration"], df["launch_delay"]))
+        except Exception as e:
+            out = {"error": type(e).__name__ + ": " + str(e)[:200]}
+        outs.append(out)
+    return {"frames": frames, "out": outs[0], "out2": outs[1]}
 
 
 def coq_term(case, impl):
     mem = case["params"]["mem"]
-    return "[" + ";\n ".join(f"encode_C15 {fw.b(mem)} {fw.evl(rows)}" for r, rows in sorted(impl["frames"].items())) + "]"
+    return "[" + ";\n ".join(f"(encode_C15 {fw.b(mem)} {fw.evl(rows)}, encode_C15 {fw.b(not mem)} {fw.evl(rows)})"
+                             for r, rows in sorted(impl["frames"].items())) + "]"
 
 
 def compare(case, impl, model):
-    if "error" in impl["out"]:
-        return ["implementation raised " + impl["out"]["error"]]
     disc = []
-    for (r, rows), m in zip(sorted(impl["out"].items()), model):
-        if [list(x) for x in rows] != [list(x) for x in m]:
-            disc.append(f"rank {r}: rows differ: impl={rows} model={m}")
+    for which, key in ((0, "out"), (1, "out2")):
+        o = impl[key]
+        if "error" in o:
+            disc.append(f"call {which + 1}: implementation raised " + o["error"])
+            continue
+        for (r, rows), m in zip(sorted(o.items()), model):
+            if [list(x) for x in rows] != [list(x) for x in m[which]]:
+                disc.append(f"rank {r}, call {which + 1} (include_memory_events={case['params']['mem'] ^ bool(which)}): rows differ: impl={rows} model={m[which]}")
     return disc
 
 
